@@ -171,8 +171,8 @@ PROPS["C11"] = {
     ],
     "negative": ["c11::c11_negative_twin"],
     "expect_panic": dict(
-        [(h, {"fail_desc": "index <= self.len", "unreachable_fn": ["::reserve", "TempVec", "cglue_reserve_vec"]}) for h in _OOB if "insert" in h] +
-        [(h, {"fail_desc": "index < self.len", "unreachable_fn": ["::reserve", "TempVec", "cglue_reserve_vec"]}) for h in _OOB if "remove" in h]),
+        [(h, {"fail_desc": "index <= self.len", "fail_fn": "CVec::<u8>::insert", "unreachable_fn": ["::reserve", "TempVec", "cglue_reserve_vec"]}) for h in _OOB if "insert" in h] +
+        [(h, {"fail_desc": "index < self.len", "fail_fn": "CVec::<u8>::remove", "unreachable_fn": ["::reserve", "TempVec", "cglue_reserve_vec"]}) for h in _OOB if "remove" in h]),
     "bounds": "inductive step: ONE symbolic operation (kind, index, value, amount all symbolic) out of {push, pop, insert, remove, "
               "reserve(<=3), clone, write through DerefMut} from every enumerated state shape len 0..=2 (thorough 0..=4) x spare "
               "capacity {0,1,2} x element type {u8, u64, zero-sized, heap-owning drop-counted}, post-state compared with an array "
